@@ -110,6 +110,14 @@ def judge(b, case, sq, rng, cj):
     names = set(B.tables_of(case["recipe"]))
     tables = [t for t in case["tables"] if t["name"] in names]
     frames = {t["name"]: core.table_frame(t) for t in tables}
+    if rng.random() < 0.3:
+        # an earlier, restricted question to the same pipeline object must not change the answer to the plain one
+        try:
+            outs = list(ops.column_names)
+            ops.columns_used(using=set(rng.sample(outs, rng.randint(1, len(outs)))))
+            b.count("restricted_columns_used_asked_first")
+        except Exception as ex:
+            b.count("restricted_columns_used_raised", type(ex).__name__)
     try:
         used = ops.columns_used()
     except Exception as ex:
